@@ -22,14 +22,15 @@ def rebuild_for_replay(rec):
 def run(chk):
     exe = build()
     rows = ncases()
-    nlev = chk.pick(2, 4)
-    cells = rows * nlev
+    nlev = chk.pick(3, 6)              # (level, silent) cells: quick (0,off) (1,off) (1,on); thorough adds (3,off) (5,off) (0,on)
+    cells = rows * nlev * 4            # x 4 integer-argument variants (rows without integer arguments run one)
     per = (cells + vf.NCPU - 1) // vf.NCPU
     chk.run('asan', exe, per, timeout=1200)
     chk.rule = ('case = one row of the frozen guard table gen/c16_guards.tsv (entry point or class-table slot, pointer parameter set to NULL, '
-                'other arguments valid samples) x runtime debug level (%s); each runs in a forked child; oracle: documented failure value, '
+                'other arguments valid samples) x (runtime debug level, silent) cell; each runs in a forked child; oracle: documented failure value, '
                 'no allocation inside the call (ASan malloc hook), other arguments bit-identical (two-level heap snapshot), normal exit; at level >=1 '
-                'alternatively exit 255 with a FATAL diagnostic; distinct = distinct (row, level) cells') % ('0,1' if nlev == 2 else '0,1,3,5')
+                'alternatively exit 255 with a FATAL diagnostic (no diagnostic required when output is silenced); integer arguments of the call take the variants '
+                '1, 0, -1, 7; distinct = distinct (row, level, silent, variant) cells; levels/silent: %s') % ('(0,off) (1,off) (1,on)' if nlev == 3 else '(0,off) (1,off) (1,on) (3,off) (5,off) (0,on)')
     chk.exhaustive = True
     chk.cov['table_rows'] = rows
     chk.cov['levels'] = nlev
@@ -41,4 +42,6 @@ def run(chk):
     chk.assumptions += ['"documented to guard" = guarded in the pinned tree (frozen table gen/c16_guards.tsv); functions that never guarded are listed there as #UNGUARDED and not judged',
                         'guards whose failure value is itself a call with effects (e.g. spif_str_init(self)) are outside the statement\'s value set and skipped']
     chk.require('soft_fail_level0', rows - 5)
-    chk.min_cases = cells
+    chk.require('silent_cells', rows)
+    chk.require('integer_argument_variants', 500)
+    chk.min_cases = rows * nlev
